@@ -2,6 +2,7 @@
 // Interpreter and the library's internal static generators, used by 2-4 simulated analyst clients whose calls are
 // interleaved by the scheduler; after each call the same call is made on freshly constructed objects and compared.
 #include "modelkit.hpp"
+#include "pristine.hpp"
 
 #include "ccl/rslang/Auditor.h"
 #include "ccl/rslang/Interpreter.h"
@@ -41,7 +42,23 @@ std::string ErrStr(const rslang::ErrorLogger& log) {
 std::string TypeOf(const rslang::ExpressionType& t) { if (const auto* ty = std::get_if<rslang::Typification>(&t)) return ty->ToString(); return "LOGIC"; }
 std::string ArgsOf(const rslang::FunctionArguments& a) { std::string s; for (auto& x : a) s += x.name + ":" + x.type.ToString() + ";"; return s; }
 
+// one call into the library's process-global generators; used identically by the worker (whatever history its statics have seen)
+// and by the pristine reference process (statics as at process start)
+std::string StaticCall(const std::string& kind, int flag, const std::string& arg) {
+  if (kind == "Convert") return rslang::ConvertTo(arg, flag % 2 ? rslang::Syntax::ASCII : rslang::Syntax::MATH);
+  if (kind == "AstString") { rslang::Parser p; if (!p.Parse(arg)) return "<unparsed>"; return rslang::AST2String::Apply(p.AST()) + " | " + rslang::Generator::FromTree(p.AST(), rslang::Syntax::MATH) + " | " + rslang::Generator::FromTree(p.AST(), rslang::Syntax::ASCII); }
+  if (arg.empty() || arg[0] == '<') return arg;
+  const auto ty = rslang::operator""_t(arg.c_str(), arg.size());
+  if (kind == "StructureFor") { std::string s; for (auto& [e, t] : rslang::Generator::StructureFor("S7", ty)) s += e + ":" + t.ToString() + ";"; return s; }
+  return ty.ToString();
+}
+std::string PristineHandler(const std::string& req) {
+  const auto a = req.find('\x1f'), b = req.find('\x1f', a + 1); if (a == std::string::npos || b == std::string::npos) return "<bad request>";
+  return StaticCall(req.substr(0, a), std::atoi(req.substr(a + 1, b - a - 1).c_str()), req.substr(b + 1));
+}
+
 class ReuseSim final : public Engine {
+  pristine::Server reference;   // forked before this process ran any library code; lives as long as the worker
   std::unique_ptr<RSModel> model;
   std::unique_ptr<rslang::Parser> parser;
   std::unique_ptr<rslang::Auditor> auditor;
@@ -112,6 +129,7 @@ public:
     return c;
   }
   void Begin(Ctx& c) override {
+    if (!reference.Running()) { signal(SIGPIPE, SIG_IGN); reference.Start(PristineHandler); }
     prop = c.focus == "C04" ? "C04" : "C18"; prevKind = "none"; memo.clear();
     proc = InstallTextProc(); proc->limit = 24;
     model = std::make_unique<RSModel>();
@@ -196,20 +214,20 @@ public:
       }
       else if (k == "Convert" || k == "AstString" || k == "StructureFor" || k == "Literal") {
         // static generators: the answer must not depend on what was processed before — ask, interfere, ask again; and compare with the first answer of this run
-        auto call = [&]() -> std::string {
-          if (k == "Convert") return rslang::ConvertTo(text, op.N(0) % 2 ? rslang::Syntax::ASCII : rslang::Syntax::MATH);
-          if (k == "AstString") { rslang::Parser p; if (!p.Parse(text)) return "<unparsed>"; return rslang::AST2String::Apply(p.AST()) + " | " + rslang::Generator::FromTree(p.AST(), rslang::Syntax::MATH) + " | " + rslang::Generator::FromTree(p.AST(), rslang::Syntax::ASCII); }
-          rslang::Parser p; auto a = model->RSLang().MakeAuditor(); if (!a->CheckExpression(text)) return "<untyped>"; const auto* ty = std::get_if<rslang::Typification>(&a->GetType()); if (!ty || !ty->IsCollection()) return "<not a domain>";
-          if (k == "StructureFor") { std::string s; for (auto& [e, t] : rslang::Generator::StructureFor("S7", ty->B().Base())) s += e + ":" + t.ToString() + ";"; return s; }
-          const std::string ascii = rslang::ConvertTo(ty->B().Base().ToString(), rslang::Syntax::ASCII);
-          return rslang::operator""_t(ascii.c_str(), ascii.size()).ToString();
-        };
+        std::string arg = text;
+        if (k == "StructureFor" || k == "Literal") { auto a = model->RSLang().MakeAuditor(); if (!a->CheckExpression(text)) arg = "<untyped>"; else { const auto* ty = std::get_if<rslang::Typification>(&a->GetType()); if (!ty || !ty->IsCollection()) arg = "<not a domain>"; else arg = rslang::ConvertTo(ty->B().Base().ToString(), rslang::Syntax::ASCII); } }
+        auto call = [&]() -> std::string { return StaticCall(k, static_cast<int>(op.N(0)), arg); };
         shared.extra = call();
         { rslang::Parser p; if (p.Parse("∀α∈X1 (α∈X1 & 1=1)", rslang::Syntax::MATH)) { (void)rslang::AST2String::Apply(p.AST()); (void)rslang::Generator::FromTree(p.AST(), rslang::Syntax::ASCII); } (void)rslang::ConvertTo("X1 \\union X2", rslang::Syntax::MATH); (void)rslang::Generator::StructureFor("S9", rslang::Typification("X1").Bool().Bool()); }
         fresh.extra = call();
         const std::string key = k + std::to_string(op.N(0) % 2) + "|" + text;
         if (auto it = memo.find(key); it != memo.end() && !c.Failed() && it->second != shared.extra) { c.Fail(prop == "C04" ? "C18" : "C18", "static_generator_memo", trig, k + " of '" + text + "' answered '" + shared.extra + "' but earlier in this run '" + it->second + "'"); return; }
         memo.emplace(key, shared.extra);
+        // ... and with a process whose generators have processed nothing before
+        if (const auto ref = reference.Ask(k + '\x1f' + std::to_string(op.N(0)) + '\x1f' + arg)) {
+          c.Oracle("static_generator_vs_pristine_process"); c.Probe("pristine_reference_asked");
+          if (*ref != shared.extra) { c.Fail("C18", "static_generator_pristine", trig, k + " of '" + arg + "' answered '" + shared.extra + "', a process that has processed nothing else answers '" + *ref + "'"); return; }
+        } else c.Probe("pristine_reference_unavailable");
         what = k + " (static generator, asked twice around other inputs)";
       }
       else if (k == "EditEmplace") { model->Emplace(TypeFrom(op.N(0)), text); compared = false; memo.clear(); c.Probe("context_changed_between_calls"); }
@@ -240,10 +258,10 @@ public:
   std::vector<std::string> StubComponents() const override { return { "iteration limit and lazy-set cache limit set per run (hooks H3/H2)", "identifier entropy (hook H1)", "text processor stub" }; }
   std::string Rule(const std::string& focus) const override {
     return std::string("one evaluation = one seeded run: 10-60 analysis calls by 2-4 clients (scheduler decides whose call runs next, i.e. each call's predecessor) on one long-lived Parser, Auditor, SchemaAuditor, the Schema's internal auditor and one Interpreter over a generated model (2 base sets, a constant set, 3-8 derived constituents with data), plus calls into the static generators and edits of the shared context; inputs: valid / mutated / function definitions / multi-line / ASCII or MATH with and without hint / evaluations failing on iteration limit, debool, missing value")
-      + (focus == "C04" ? "; inputs additionally storage-damaged (invalid UTF-8); oracle = no crash/UB/escaped exception" : "; after each call the same call on freshly constructed objects must give identical verdict, errors (id, position, parameters), type, arguments, value class, tree, generated text in both syntaxes, value and iteration count; static generators asked twice around interfering inputs and against the first answer of the run")
+      + (focus == "C04" ? "; inputs additionally storage-damaged (invalid UTF-8); oracle = no crash/UB/escaped exception" : "; after each call the same call on freshly constructed objects must give identical verdict, errors (id, position, parameters), type, arguments, value class, tree, generated text in both syntaxes, value and iteration count; static generators asked twice around interfering inputs, against the first answer of the run, and against a pristine reference process (forked before the worker ran any library code; each question answered in a fresh fork of it)")
       + ". distinct_nontrivial = distinct whole-run call-kind sequences.";
   }
-  std::vector<std::string> Assumptions(const std::string&) const override { return { "static generators cannot be re-created; for them history-independence is checked as ask / interfere / ask-again within a run that starts with a normalising prelude", "operator\"\"_t is only fed typifications the checker accepted (it asserts otherwise)" }; }
+  std::vector<std::string> Assumptions(const std::string&) const override { return { "static generators cannot be re-created inside a process; their fresh instance is a reference process forked before any library code ran, plus ask / interfere / ask-again within the run", "operator\"\"_t is only fed typifications the checker accepted (it asserts otherwise)" }; }
 
 };
 
